@@ -122,11 +122,17 @@ func (s *Service) Handle(ctx context.Context, conn net.Conn) error {
 
 	rcvLine := make(chan string)
 
+	// the mails received on this connection, and the end of the session
+	receive := make(chan Message)
+	done := make(chan struct{})
+
 	// Wait for a message and send it into the eventbus
 	go func() {
 		for {
 			select {
-			case message := <-s.receiveChan:
+			case <-done:
+				return
+			case message := <-receive:
 				header := []event.Option{}
 
 				for key, values := range message.Header {
@@ -164,9 +170,23 @@ func (s *Service) Handle(ctx context.Context, conn net.Conn) error {
 		}
 	}()
 
+	// this connection's server: as configured, but its mails go to the
+	// pump of this connection
+	mux := NewServeMux()
+	mux.HandleFunc(func(msg Message) error {
+		receive <- msg
+		return nil
+	})
+
+	srv := *s.srv
+	srv.Handler = mux
+
 	//Create new smtp server connection
-	c := s.srv.newConn(conn, rcvLine)
+	c := srv.newConn(conn, rcvLine)
 	// Start server loop
 	c.serve()
+
+	close(done)
+
 	return nil
 }
